@@ -9,6 +9,7 @@ Harnesses are written against `Ctx`, which has two modes:
   conc: inputs are floats taken from a solver model, `check` evaluates concretely (replay)
 """
 import math
+import os
 import time
 from fractions import Fraction
 
@@ -229,6 +230,12 @@ class SR:
             if isinstance(num_v, Fraction):
                 return SR(num_v / den_v, _or(num_n, den_n))
             return SR(term(num_v) * _rv(1 / den_v), _or(num_n, den_n))
+        ds = z3.simplify(den_v)
+        if z3.is_rational_value(ds):
+            f = Fraction(ds.numerator_as_long(), ds.denominator_as_long())
+            if f == 0:
+                return SR(Fraction(0), z3.BoolVal(True))
+            return SR(term(num_v) * _rv(1 / f), _or(num_n, den_n))
         _CTX.defined.append(den_v != 0)
         return SR(term(num_v) / den_v, _or(num_n, den_n))
 
@@ -676,6 +683,7 @@ class Result:
         self.wall_s = 0.0
         self.error = None
         self.functions = []
+        self.cvc5_queries = 0
 
     def to_dict(self):
         return dict(self.__dict__)
@@ -746,6 +754,7 @@ class Ctx:
         self._obs_model_failed = False
         self.path_note = []
         self._uf_terms = {}
+        self._mods = []
         self.solver.push()
 
     def _end_run(self):
@@ -833,6 +842,9 @@ class Ctx:
         a = np.empty(shape, dtype=object if self.mode == "sym" else float)
         for idx in np.ndindex(*shape):
             a[idx] = self.real(name + "_" + "_".join(map(str, idx)), nan=nan)
+        if self.mode == "sym":
+            from .shim import SymArray
+            a = a.view(SymArray)
         return a
 
     def integer(self, name):
@@ -904,7 +916,8 @@ class Ctx:
     def feasible(self):
         return self._check(timeout=self.check_timeout_ms) != "unsat"
 
-    def check(self, claim, label, info=None, timeout=None, assume_defined=True, abstract=None, lemmas=None):
+    def check(self, claim, label, info=None, timeout=None, assume_defined=True, abstract=None, lemmas=None,
+              div_uf=False):
         """obligation: claim must hold on this path for every value of the symbols.
         abstract: list of SR whose (large) terms are replaced by fresh variables first (sound: validity of the
                   abstracted claim implies validity of the instance); falls back to the unabstracted query.
@@ -936,12 +949,19 @@ class Ctx:
         tmo = int(timeout or self.check_timeout_ms)
         t0 = time.time()
         r = None
-        if abstract:
+        cand = None
+        if abstract or div_uf:
             # substitute in the unsimplified claim: the simplifier rearranges the terms to be matched
-            r = self._check_abstract([z3.Not(raw)] + extra[1:], abstract, lemmas or [], tmo)
+            r = self._check_abstract([z3.Not(raw)] + extra[1:], abstract or [], lemmas or [], tmo, div_uf)
             res.queries += 1
+            if isinstance(r, tuple):
+                r, cand = r
         model = None
         if r != "unsat":
+            # (a model of the abstraction is only a candidate; with one in hand the exact query gets a short budget and
+            #  the candidate is handed to the replay, which alone decides whether it is a real counterexample)
+            if cand is not None:
+                tmo = min(tmo, 5000)
             self.solver.set("timeout", tmo)
             self.solver.push()
             self.solver.add(*extra)
@@ -949,6 +969,15 @@ class Ctx:
             if r == "sat":
                 model = self._model_dict(self.solver.model())
             reason = self.solver.reason_unknown() if r == "unknown" else None
+            if r == "unknown":
+                r2 = cvc5_check(self.solver.to_smt2(), tmo)
+                res.cvc5_queries = getattr(res, "cvc5_queries", 0) + 1
+                if r2 == "unsat":
+                    r = "unsat"
+                else:
+                    reason = f"z3: {reason}; cvc5: {r2}"
+                    if cand is not None:
+                        r, model = "sat", cand
             self.solver.pop()
             res.queries += 1
         res.solver_s += time.time() - t0
@@ -979,7 +1008,7 @@ class Ctx:
             pass
         return False
 
-    def _check_abstract(self, extra, abstract, lemmas, tmo):
+    def _check_abstract(self, extra, abstract, lemmas, tmo, div_uf=False):
         pairs = []
         for k, x in enumerate(abstract):
             t = x.v if isinstance(x, SR) else x
@@ -989,14 +1018,29 @@ class Ctx:
         pairs.sort(key=lambda p: -len(p[0].sexpr()))
         s2 = z3.Solver()
         s2.set("timeout", tmo)
-        sub = lambda e: z3.substitute(e, *pairs) if pairs else e
+        sub0 = lambda e: z3.substitute(e, *pairs) if pairs else e
+        dcache = {}
+        sub = (lambda e: _div_to_uf(sub0(e), dcache)) if div_uf else sub0
         for a in self.solver.assertions():
             s2.add(sub(a))
         for l in lemmas:
             s2.add(sub(self._tobool(l)))
         for e in extra:
             s2.add(sub(e))
-        return str(s2.check())
+        if self.uf_unit_axioms:
+            for a in dcache.get("_ax", []):  # unit/zero laws of the abstracted operators
+                s2.add(a)
+        s2.set("timeout", min(tmo, 5000))
+        r = str(s2.check())
+        if r == "unknown":
+            r2 = cvc5_check(s2.to_smt2(), tmo)
+            self.result.cvc5_queries = getattr(self.result, "cvc5_queries", 0) + 1
+            if r2 == "unsat":
+                return "unsat"
+        if r == "sat" and not pairs:
+            # inputs keep their names under the operator abstraction: the model is a candidate counterexample
+            return r, self._model_dict(s2.model())
+        return r
 
     def noraise(self, label, fn, *a, **k):
         """claim: fn(*a, **k) (real code) returns without raising on this path. An exception is a counterexample
@@ -1175,6 +1219,22 @@ class Ctx:
     def abs(self, x):
         return abs(x)
 
+    def mod(self, x, p):
+        """x % p (p positive constant), result in [0,p)"""
+        if self.mode == "sym":
+            return self.umod(self._sr(x), p)
+        return x % p
+
+    def is_multiple(self, x, p):
+        """x is an integer multiple of the constant p (conc: to 1e-7 relative)"""
+        if self.mode == "sym":
+            x = self._sr(x)
+            if isinstance(x.v, Fraction):
+                return (x.v / _frac(p)).denominator == 1
+            return SB(z3.IsInt(x.v / _rv(_frac(p))))
+        q = x / p
+        return abs(q - round(q)) < 1e-7
+
     # ------------------------------------------------------------------ transcendental models
     def _fresh(self, base, sort="real"):
         self.fresh += 1
@@ -1231,6 +1291,8 @@ class Ctx:
         ex = self._exact_trig(x, "cos")
         if ex is not None:
             return ex
+        if not self.trig_axioms:
+            return self._uf1("cos", x, lambda t, xe: [])
         c = self._uf1("cos", x, lambda t, xe: [t >= -1, t <= 1, t * t + UF["sin"](xe) * UF["sin"](xe) == 1])
         return c
 
@@ -1238,9 +1300,14 @@ class Ctx:
         ex = self._exact_trig(x, "sin")
         if ex is not None:
             return ex
+        if not self.trig_axioms:
+            return self._uf1("sin", x, lambda t, xe: [])
         s = self._uf1("sin", x, lambda t, xe: [t >= -1, t <= 1, t * t + UF["cos"](xe) * UF["cos"](xe) == 1])
         return s
 
+    uf_unit_axioms = False  # add x/1==x, 1*x==x, 0*x==0 instances for the abstracted non-linear operators
+    concretise_mods = False  # umod: replace the wrap count by a constant when the path condition determines it
+    trig_axioms = True  # False: cos/sin of symbolic angles are plain uninterpreted functions (congruence only)
     trig_mode = "float"  # 'float': cos(const) = exact rational of the float value; 'algebraic': snap to exact
 
     def _exact_trig(self, x, fn):
@@ -1347,9 +1414,40 @@ class Ctx:
             raise Unsupported("mod by non-constant / non-positive")
         if isinstance(x.v, Fraction):
             return SR(x.v - pf * math.floor(x.v / pf), x.n)
-        k = self._fresh("modk", "int")
-        r = x.v - z3.ToReal(k) * _rv(pf)
-        self.solver.add(r >= 0, r < _rv(pf))
+        # reuse the wrap count of an earlier x' % p whose argument differs by a constant whole number of periods
+        # (spares the solver the integer reasoning k' = k + c, on which z3's mixed int/real core gives up)
+        kterm = None
+        for (pp, xprev, kprev) in self._mods:
+            if pp != pf:
+                continue
+            dlt = z3.simplify(x.v - xprev)
+            if z3.is_rational_value(dlt):
+                c = Fraction(dlt.numerator_as_long(), dlt.denominator_as_long()) / pf
+                if c.denominator == 1:
+                    kterm = kprev + int(c)
+                    break
+        if kterm is None:
+            kterm = self._fresh("modk", "int")
+            r = x.v - z3.ToReal(kterm) * _rv(pf)
+            self.solver.add(r >= 0, r < _rv(pf))
+            # if the path condition determines the wrap count uniquely, use that constant: the query stays in linear
+            # real arithmetic (two short solver calls per new modulo)
+            self.solver.set("timeout", self.branch_timeout_ms)
+            t0 = time.time()
+            if self.concretise_mods and str(self.solver.check()) == "sat":
+                k0 = self.solver.model().eval(kterm, model_completion=True)
+                self.solver.push()
+                self.solver.add(kterm != k0)
+                uniq = str(self.solver.check()) == "unsat"
+                self.solver.pop()
+                if uniq:
+                    self.solver.add(kterm == k0)
+                    kterm = k0
+            self.result.solver_s += time.time() - t0
+            self.result.queries += 2
+            self._mods.append((pf, x.v, kterm))
+        else:
+            r = x.v - z3.ToReal(kterm) * _rv(pf)
         return SR(r, x.n)
 
     def ufloordiv(self, x, p):
@@ -1413,6 +1511,74 @@ class Ctx:
             self._obs_model = (m, md)
         m = self._obs_model[0]
         self.observed[name] = _eval_obs(m, value)
+
+
+def cvc5_check(smt2, timeout_ms):
+    """second solver for queries on which z3 answers unknown (mixed integer/real arithmetic with uninterpreted
+    functions in particular). Only an `unsat` answer is used; anything else leaves the obligation undecided."""
+    import subprocess
+    import tempfile
+    import shutil
+    exe = shutil.which("cvc5")
+    if exe is None:
+        return "unavailable"
+    with tempfile.NamedTemporaryFile("w", suffix=".smt2", delete=False) as f:
+        f.write("(set-logic ALL)\n" + smt2)
+        path = f.name
+    try:
+        p = subprocess.run([exe, f"--tlimit={int(timeout_ms)}", path], capture_output=True, text=True,
+                           timeout=timeout_ms / 1000 + 10)
+        out = p.stdout.strip().splitlines()
+        if any("error" in l.lower() for l in out) or "(error" in p.stderr:
+            return "error"
+        return out[-1].strip() if out else "unknown"
+    except subprocess.TimeoutExpired:
+        return "timeout"
+    finally:
+        try:
+            os.remove(path)
+        except OSError:
+            pass
+
+
+DIVUF = z3.Function("div_uf", _R, _R, _R)
+
+
+MULUF = z3.Function("mul_uf", _R, _R, _R)
+
+
+def _div_to_uf(e, cache):
+    """abstraction of the non-linear operators: every real division by a non-numeral and every product of two or
+    more non-numeral factors becomes an uninterpreted function application (products in a canonical argument order).
+    Sound: x/y == x'/y' and x*y == x'*y' still follow from x==x', y==y' by congruence, and the query is linear."""
+    k = e.get_id()
+    if k in cache:
+        return cache[k]
+    if z3.is_app(e) and e.num_args() > 0:
+        ch = [_div_to_uf(c, cache) for c in e.children()]
+        kind = e.decl().kind()
+        ax = cache.setdefault("_ax", [])
+        if kind == z3.Z3_OP_DIV and not z3.is_rational_value(ch[1]):
+            r = DIVUF(ch[0], ch[1])
+            ax.append(z3.Implies(ch[1] == 1, r == ch[0]))
+            ax.append(z3.Implies(ch[0] == 0, r == 0))
+        elif kind == z3.Z3_OP_MUL and e.sort() == _R and sum(1 for c in ch if not z3.is_rational_value(c)) >= 2:
+            nums = [c for c in ch if z3.is_rational_value(c)]
+            rest = sorted((c for c in ch if not z3.is_rational_value(c)), key=lambda t: t.sexpr())
+            r = rest[0]
+            for c in rest[1:]:
+                a0, r = r, MULUF(r, c)
+                ax.append(z3.Implies(a0 == 1, r == c))
+                ax.append(z3.Implies(c == 1, r == a0))
+                ax.append(z3.Implies(z3.Or(a0 == 0, c == 0), r == 0))
+            for c in nums:
+                r = c * r
+        else:
+            r = e.decl()(*ch) if any(a.get_id() != b.get_id() for a, b in zip(ch, e.children())) else e
+    else:
+        r = e
+    cache[k] = r
+    return r
 
 
 def _nanflag(x):
